@@ -1,5 +1,5 @@
 CONSTANTS P = 79  A = 0  B = 3  Gx = 1  Gy = 2  N = 97
-          SignZ = {1, 96, 97, 98}  VerZ = {1, 97}  VerQ = {2, 3, 50, 97}  RecZ = {1, 97}
+          SignZ = {1, 96, 97, 98}  VerZ = {1, 97}  VerQ = {2, 50, 97}  RecZ = {1, 97}
 SPECIFICATION Spec
 INVARIANT ReturnedVerifies
 CHECK_DEADLOCK FALSE
